@@ -235,6 +235,54 @@ pub fn generate(kind: &str, thorough: bool, seed: u64, corpus: &str, out: &mut O
                 for t in random_docs(&si, &mut rng, 50, 5) { crate::valcases::rules_case(&si, &t, &rules, &tmp, out); }
             }
         }
+        "c09" => {
+            let tmp = tmpdir();
+            let rules = ["KnownArgumentNames", "UniqueArgumentNames", "ProvidedRequiredArguments"];
+            let si = gen::SchemaInfo::new("args", &format!("{}{}", schemas::PRELUDE, schemas::ARGS));
+            out.schema(&si);
+            fn lists(names: &[&str], maxlen: usize) -> Vec<String> {
+                let mut out = vec![String::new()];
+                let mut cur: Vec<Vec<&str>> = vec![vec![]];
+                for _ in 0..maxlen {
+                    let mut next = vec![];
+                    for l in &cur { for n in names { let mut m = l.clone(); m.push(n); next.push(m); } }
+                    for l in &next { out.push(format!("({})", l.iter().map(|n| format!("{}: 1", n)).collect::<Vec<_>>().join(", "))); }
+                    cur = next;
+                }
+                out
+            }
+            let maxlen = if thorough { 4 } else { 3 };
+            let fl = lists(&["i", "r", "d", "zz"], maxlen);
+            let dl = lists(&["x", "y", "zz"], maxlen);
+            for (k, a) in fl.iter().enumerate() {
+                let da = &dl[k % dl.len()];
+                let docs = [
+                    format!("{{ f{} }}", a), format!("{{ w {{ g{} }} }}", a), format!("{{ j {{ g{} }} }}", a),
+                    format!("{{ nope {{ g{} }} }}", a), format!("{{ w {{ nope{} }} }}", a), format!("{{ f{} @nope(zz: 1) }}", a),
+                    format!("{{ w @dir{} {{ g{} }} }}", da, a), format!("{{ ... @dir{} {{ f{} }} }}", da, a),
+                    format!("{{ f{} @noargs(zz: 1) @dir{} }}", a, da), format!("{{ w {{ w {{ g{} j {{ g{} }} }} }} }}", a, da.replace("x", "i").replace("y", "r")),
+                ];
+                for t in docs.iter() { crate::valcases::rules_case(&si, t, &rules, &tmp, out); }
+            }
+            for a in dl.iter() {
+                let docs = [
+                    format!("{{ f(i: 1, r: 1) @dir{} }}", a), format!("query @dir{} {{ plain }}", a),
+                    format!("{{ ...F @dir{} }} fragment F on Query @dir{} {{ plain }}", a, a),
+                    format!("{{ plain @dir{} @dir(y: 1) @dir{} }}", a, a), format!("{{ nope @dir{} }}", a),
+                ];
+                for t in docs.iter() { crate::valcases::rules_case(&si, t, &rules, &tmp, out); }
+            }
+            for si in pool() {
+                out.schema(&si);
+                for t in corpus_docs(corpus, &si.name) { crate::valcases::rules_case(&si, &t, &rules, &tmp, out); }
+                for t in random_docs(&si, &mut rng, 100 * scale, 5) { crate::valcases::rules_case(&si, &t, &rules, &tmp, out); }
+            }
+            for i in 0..(8 * scale) {
+                let si = gen::SchemaInfo::new(&format!("random{}", i), &gen::random_schema(&mut rng));
+                out.schema(&si);
+                for t in random_docs(&si, &mut rng, 50, 5) { crate::valcases::rules_case(&si, &t, &rules, &tmp, out); }
+            }
+        }
         _ => panic!("unknown kind {}", kind),
     }
 }
